@@ -461,8 +461,12 @@ func (r *runner) runCase(d *driver, reuse bool, s *stream, cuts []int, mask uint
 	cc := append([]int(nil), cuts...)
 	id := fmt.Sprintf("%s/%s/cuts%v/flush%b", d.sz.name, s.name, cc, mask)
 	ctx.Case(id, len(cc) > 0 || mask != 0, "", func() (string, string) {
+		before := d.nOverflow
 		units, flushAt, wedge := d.run(s.text, cc, mask, reuse)
 		key, msg := judge(d, s, units, flushAt, wedge, mask, overLimit)
+		if key == "" && !overLimit && d.nOverflow != before && assertNoOverflow {
+			key, msg = "diag:overflow-handling-ran-for-within-limit-records", "checkOverflow reset the buffer although every record is within the soft limit"
+		}
 		if key == "" {
 			return "", ""
 		}
@@ -474,6 +478,10 @@ func (r *runner) runCase(d *driver, reuse bool, s *stream, cuts []int, mask uint
 			d.sz.name, s.text, cc, mask, show(units), show(s.records))
 	})
 }
+
+// assertNoOverflow (SEQ_FRAMING_ASSERT_NO_OVERFLOW=1) turns the design fact "records within the soft limit never reach
+// the overflow handling" into a reported class; a diagnostic, not part of the property.
+var assertNoOverflow = os.Getenv("SEQ_FRAMING_ASSERT_NO_OVERFLOW") != ""
 
 // judge applies the oracles to the outcome of one case.
 func judge(d *driver, s *stream, units []string, flushAt []int, wedge string, mask uint, overLimit bool) (string, string) {
